@@ -12,7 +12,12 @@ import (
 	"golang.org/x/tools/go/ssa/ssautil"
 )
 
-const repoRoot = "/repo"
+var repoRoot = func() string {
+	if v := os.Getenv("VCHECK_REPO"); v != "" {
+		return v
+	}
+	return "/repo"
+}()
 const modPath = "github.com/cloudwego/gopkg"
 
 func verifRoot() string {
